@@ -21,6 +21,10 @@ RULE = (
     "LIKELY_SAFE), so that one protection standing in for the other is seen; __exit__ must not "
     "swallow exceptions. Non-trivial = history nests a context inside another protection, leaves "
     "by exception, or arms two families; distinct = distinct histories."
+    ' Also: a pickle calling each addable name the current activation did not add must be refused'
+    ' through every ML-protected binding; under a check armed on top of an active ML environment'
+    ' the allowlist still refuses; managers created earlier and entered later, and the innermost'
+    ' open manager entered again.'
 )
 ASSUMPTIONS = [
     "activate / remove are generated only at context depth 0: their effect on an open context's "
